@@ -14,15 +14,20 @@ Leg S2C : every TLC state (dump) is loaded into a REAL InMemoryMetricsStore thro
           the percentiles 0, 50, 90, 99, 99.9, 99.99, 100.
           Two thirds of the stores are filled as race control does it: per-task (or arbitrary) hand-overs
           to_externalizable(clear=True) -> bulk_add from a second store, then calculate_results.
+          A few races with non-ASCII task names / user tags are read back by a child interpreter whose preferred
+          encoding is not UTF-8 (LC_ALL=C, no coercion, no UTF-8 mode).
 Leg C2S : the recorded (store, results, normal-only results, reloaded results) of the S2C runs and of seeded random
           stores (wider values, more tasks, bigger bags) are validated by TLC against TraceStats.tla:
           L1 = clauses of C08, L2 = equality with the transcription.
 """
 import datetime
+import json
 import math
 import os
 import random
 import re
+import subprocess
+import sys
 from fractions import Fraction
 
 from .. import tlc, tracecheck
@@ -140,6 +145,56 @@ def _key_p100(k):
 # ---------------------------------------------------------------------------------------------------
 # the implementation under test
 # ---------------------------------------------------------------------------------------------------
+UNI_SUFFIX = "-gr\u00f6\u00dfe-\u691c\u7d22"  # non-ASCII text in task / operation names of the "uni" cases
+UNI_TAGS = {"\u00e4rger": "se\u00f1or-\u691c\u7d22"}
+
+
+def race_cfg(config, root, race_id, ts=datetime.datetime(2020, 1, 2, 3, 4, 5)):
+    cfg = config.Config()
+    app = config.Scope.application
+    for sec, key, val in (
+        ("system", "env.name", "verif"),
+        ("system", "time.start", ts),
+        ("system", "race.id", race_id),
+        ("system", "list.max_results", 100000),
+        ("node", "root.dir", root),
+    ):
+        cfg.add(app, sec, key, val)
+    return cfg
+
+
+# Reads stored races back in a process whose preferred encoding is NOT UTF-8 (LC_ALL=C, no locale coercion, no UTF-8 mode)
+# with the FileRaceStore of the implementation under test; jobs on stdin, projected results on stdout (ASCII JSON).
+CHILD = r"""
+import json, locale, os, sys
+sys.path.insert(0, os.environ["VERIF_HOME"])
+sys.path.insert(0, os.environ["VERIF_REPO"])
+jobs = json.loads(sys.stdin.buffer.read().decode("utf-8"))
+from esrally import config, metrics
+from harness.drivers import c08
+out = {"encoding": locale.getpreferredencoding(False), "res": []}
+for job in jobs:
+    rs = metrics.FileRaceStore(c08.race_cfg(config, job["root"], job["race_id"]))
+    u = tuple(job["u"])
+    r = {}
+    try:
+        race = rs.find_by_race_id(job["race_id"])
+        gs = metrics.GlobalStats(race.results)
+        r["RL"] = c08.project_results(gs, job["sched"], u, "metrics")
+        r["id"] = {"results": gs.as_dict(), "tasks": gs.tasks(), "tags": race.user_tags}
+    except Exception as ex:
+        r["id_err"] = type(ex).__name__
+    listed = [x for x in rs.list() if x.race_id == job["race_id"]]
+    r["n_listed"] = len(listed)
+    if len(listed) == 1:
+        gs = metrics.GlobalStats(listed[0].results)
+        r["RS"] = c08.project_results(gs, job["sched"], u, "metrics")
+        r["list"] = {"results": gs.as_dict(), "tasks": gs.tasks(), "tags": listed[0].user_tags}
+    out["res"].append(r)
+sys.stdout.write(json.dumps(out))
+"""
+
+
 class Impl:
     def __init__(self, root):
         os.environ.setdefault("RALLY_HOME", os.path.join(root, "home"))
@@ -148,6 +203,7 @@ class Impl:
         self.metrics = metrics
         self.track = track
         self.root = os.path.join(root, "rally-root")
+        self.uni_root = os.path.join(root, "rally-root-uni")  # races read back by the child; kept apart so that list() of the main root stays short
         cfg = config.Config()
         app = config.Scope.application
         cfg.add(app, "system", "env.name", "verif")
@@ -196,7 +252,7 @@ class Impl:
             self._tracks[key] = (track.Track("verif-track", "C08", challenges=[ch]), ch)
         return self._tracks[key]
 
-    def new_race(self, t, ch, race_id=RACE_ID, ts=datetime.datetime(2020, 1, 2, 3, 4, 5)):
+    def new_race(self, t, ch, race_id=RACE_ID, ts=datetime.datetime(2020, 1, 2, 3, 4, 5), tags=None):
         return self.metrics.Race(
             rally_version="0.0.0",
             rally_revision="verif",
@@ -204,7 +260,7 @@ class Impl:
             race_id=race_id,
             race_timestamp=ts,
             pipeline="benchmark-only",
-            user_tags={},
+            user_tags=dict(tags or {}),
             track=t,
             track_params={},
             challenge=ch,
@@ -213,7 +269,7 @@ class Impl:
             plugin_params={},
         )
 
-    def load_store(self, S, u, ot, rnd, normal_only=False, opn=None, ho=0, sched=()):
+    def load_store(self, S, u, ot, rnd, normal_only=False, opn=None, ho=0, sched=(), names=None):
         """Fills a real InMemoryMetricsStore with the records of S and returns it.
         ho = 0: the records are put straight into the store the results are calculated from.
         ho = 1 / 2: the store is filled the way race control fills it (racecontrol.BenchmarkCoordinator.on_task_finished /
@@ -231,6 +287,8 @@ class Impl:
             recs.append((m, t, True, True, a0 + i * step + tail, i >= fails, i))
         if normal_only:
             recs = [r for r in recs if r[3]]
+        if names:  # real (non-ASCII) task names; ot, opn and sched are keyed by the real names
+            recs = [(r[0], names.get(r[1], r[1])) + tuple(r[2:]) for r in recs]
         rnd.shuffle(recs)
         chunk_of = {}
         n_chunks = 1
@@ -309,40 +367,7 @@ class Impl:
 
     # -- projections of what the implementation returned onto the result structure of Stats.tla
     def project(self, gs, sched, u, via):
-        """via = "entries": the entry of op_metrics whose task is the task (how the summary report walks the results that
-        calculate_results returned); via = "metrics": GlobalStats.metrics(task), the access path of compare on results read
-        back from race.json."""
-        ops = []
-        for name, *_ in sched:
-            if via == "metrics":
-                r = gs.metrics(name)
-            else:
-                r = next((e for e in gs.op_metrics if e.get("task") == name), None)
-            if r is None:
-                ops.append(
-                    {"p": False, "tp": _no_summary(), "lat": _empty_table(), "svc": _empty_table(), "proc": _empty_table(), "er": dict(NONE), "dur": dict(NONE)}
-                )
-                continue
-            tp = r.get("throughput") or {}
-            ops.append(
-                {
-                    "p": True,
-                    "tp": {
-                        "min": rat(tp.get("min"), u, grid=True),
-                        "mean": rat(tp.get("mean"), u),
-                        "med": rat(tp.get("median"), u, grid=True),
-                        "max": rat(tp.get("max"), u, grid=True),
-                        "unit": _unit(tp.get("unit")),
-                    },
-                    "lat": _table(r.get("latency"), u),
-                    "svc": _table(r.get("service_time"), u),
-                    "proc": _table(r.get("processing_time"), u),
-                    "er": rat(r.get("error_rate")),
-                    "dur": rat(r.get("duration"), 1000, grid=True),
-                }
-            )
-        g = {k: rat(getattr(gs, attr), grid=True) for k, attr in GATTR.items()}
-        return {"ops": ops, "g": g}
+        return project_results(gs, sched, u, via)
 
     def direct(self, store, sched, u, ot):
         normal = self.metrics.SampleType.Normal
@@ -391,31 +416,47 @@ class Impl:
 
     def run_store(self, item, rnd):
         """Executes one store item on the real code and fills in the observation."""
-        S, sched = item["S"], item["sched"]
+        S, msched = item["S"], item["sched"]
         u = (item["u"], grid_tol(S))  # only for the conversion of results; the store is fed with v * item["u"]
-        ot = item.setdefault("ot", op_types(sched))
+        mot = item.setdefault("ot", op_types(msched))
+        # "uni" cases: the implementation sees non-ASCII task / operation names and user tags (the model keeps t1, t2, ...)
+        uni = item.get("uni") is not None
+        tn = {e[0]: e[0] + UNI_SUFFIX for e in msched} if uni else {}
+        sched = [[tn.get(e[0], e[0]), e[1], tn.get(e[2], e[2])] for e in msched]
+        ot = {tn.get(k, k): v for k, v in mot.items()}
         opn = {e[0]: e[2] for e in sched}
         t, ch = self.track_for(sched, ot)
         ho = item.setdefault("ho", 0)
-        store = self.load_store(S, item["u"], ot, rnd, opn=opn, ho=ho, sched=sched)
+        store = self.load_store(S, item["u"], ot, rnd, opn=opn, ho=ho, sched=sched, names=tn)
         if item.get("tele") is not None:
             self.add_telemetry(store, item["tele"])
-        race = self.new_race(t, ch)
+        race_id = "c08-uni-%d" % item["uni"] if uni else RACE_ID
+        race = self.new_race(t, ch, race_id=race_id, tags=UNI_TAGS if uni else None)
         try:
             res = self.metrics.calculate_results(store, race)
             item["R"] = self.project(res, sched, u, "entries")
             item["D"] = self.direct(store, sched, u, ot)
+            pfs = self.metrics.percentiles_for_sample_size
+            item["PF"] = [[sorted(int(round(p * 100)) for p in pfs(row[j]["n"])) if row[j]["n"] > 0 else [] for j in (1, 2, 3)] for row in item["D"]]
         except Exception as ex:  # pylint: disable=broad-except
             # the implementation raises on a valid store: there are no results at all; recorded as results that equal nothing
             item["crash"] = "%s: %s" % (type(ex).__name__, ex)
             item["R"] = item["RN"] = item["RL"] = item["RS"] = _crashed_results(sched)
             item["D"] = item["DN"] = [[{"k": [], "v": [], "n": -1, "min": dict(BAD), "max": dict(BAD), "mean": dict(BAD)} for _ in TASK_METRICS] for _ in sched]
             item["diff"] = []
+            item["PF"] = [[[], [], []] for _ in sched]
             return item
         race.add_results(res)
-        item["RL"], item["RS"], item["diff"] = self.persist_and_reload(race, res, sched, u)
+        if uni:
+            # stored now, read back later by a child interpreter with a non-UTF-8 preferred encoding (read_back_in_child)
+            from esrally import config
+
+            self.metrics.FileRaceStore(race_cfg(config, self.uni_root, race_id)).store_race(race)
+            item["_pending"] = {"race_id": race_id, "sched": sched, "u": list(u), "original": res, "tags": dict(UNI_TAGS)}
+        else:
+            item["RL"], item["RS"], item["diff"] = self.persist_and_reload(race, res, sched, u)
         if any(not r[3] for r in S["recs"]):
-            store_n = self.load_store(S, item["u"], ot, rnd, normal_only=True, opn=opn, ho=ho, sched=sched)
+            store_n = self.load_store(S, item["u"], ot, rnd, normal_only=True, opn=opn, ho=ho, sched=sched, names=tn)
             res_n = self.metrics.calculate_results(store_n, self.new_race(t, ch))
             item["RN"] = self.project(res_n, sched, u, "entries")
             item["DN"] = self.direct(store_n, sched, u, ot)
@@ -423,6 +464,49 @@ class Impl:
             # no warm-up record: the normal-only store is the store itself (another insertion order adds nothing here)
             item["RN"], item["DN"] = item["R"], item["D"]
         return item
+
+    def read_back_in_child(self, items):
+        """Fills RL / RS / diff of the "uni" items: their race files are read by a child interpreter started with LC_ALL=C and
+        without locale coercion / UTF-8 mode (preferred encoding ASCII), importing esrally from the tree under test."""
+        pending = [it for it in items if "_pending" in it]
+        if not pending:
+            return None
+        jobs = [{"root": self.uni_root, "race_id": it["_pending"]["race_id"], "sched": it["_pending"]["sched"], "u": it["_pending"]["u"]} for it in pending]
+        env = {
+            "PATH": os.environ.get("PATH", "/usr/bin:/bin"),
+            "LC_ALL": "C",
+            "LANG": "C",
+            "PYTHONUTF8": "0",
+            "PYTHONCOERCECLOCALE": "0",
+            "PYTHONHASHSEED": "0",
+            "RALLY_HOME": os.environ["RALLY_HOME"],
+            "VERIF_REPO": os.environ.get("VERIF_REPO", "/repo"),
+            "VERIF_HOME": tlc.VERIF,
+        }
+        p = subprocess.run([sys.executable, "-c", CHILD], input=json.dumps(jobs).encode("utf-8"), stdout=subprocess.PIPE, stderr=subprocess.PIPE, env=env, timeout=300, check=False)
+        if p.returncode != 0:
+            raise tlc.MachineryError("reader child failed: %s" % p.stderr.decode("utf-8", "replace")[-1500:])
+        answer = json.loads(p.stdout.decode("ascii"))
+        if answer["encoding"].lower().replace("-", "") in ("utf8",):
+            raise tlc.MachineryError("reader child has a UTF-8 preferred encoding (%s): the non-UTF-8 locale could not be set up" % answer["encoding"])
+        nothing = {"ops": [], "g": {k: dict(BAD) for k in GATTR}}
+        for it, r in zip(pending, answer["res"]):
+            pend = it.pop("_pending")
+            orig = pend["original"]
+            diff = []
+            for key, path, proj in (("id", "find_by_race_id", "RL"), ("list", "list", "RS")):
+                if key in r:
+                    it[proj] = r[proj]
+                    diff += deep_diff(json.loads(json.dumps(orig.as_dict())), r[key]["results"], key)
+                    if [e.get("task") for e in orig.op_metrics] != r[key]["tasks"]:
+                        diff.append(key + ".tasks()")
+                    if r[key]["tags"] != pend["tags"]:
+                        diff.append(key + ".user_tags")
+                else:
+                    it[proj] = nothing
+                    diff.append("%s:%s" % (path, r.get("id_err", "listed %s" % r.get("n_listed"))))
+            it["diff"] = diff[:6]
+        return answer["encoding"]
 
     def run_doc(self, item):
         doc = item["doc"]
@@ -455,6 +539,43 @@ class Impl:
         race.add_results(gs)
         item["RL"], item["RS"], item["diff"] = self.persist_and_reload(race, gs, sched, 1)
         return item
+
+
+def project_results(gs, sched, u, via):
+    """via = "entries": the entry of op_metrics whose task is the task (how the summary report walks the results that
+    calculate_results returned); via = "metrics": GlobalStats.metrics(task), the access path of compare on results read
+    back from race.json."""
+    ops = []
+    for name, *_ in sched:
+        if via == "metrics":
+            r = gs.metrics(name)
+        else:
+            r = next((e for e in gs.op_metrics if e.get("task") == name), None)
+        if r is None:
+            ops.append(
+                {"p": False, "tp": _no_summary(), "lat": _empty_table(), "svc": _empty_table(), "proc": _empty_table(), "er": dict(NONE), "dur": dict(NONE)}
+            )
+            continue
+        tp = r.get("throughput") or {}
+        ops.append(
+            {
+                "p": True,
+                "tp": {
+                    "min": rat(tp.get("min"), u, grid=True),
+                    "mean": rat(tp.get("mean"), u),
+                    "med": rat(tp.get("median"), u, grid=True),
+                    "max": rat(tp.get("max"), u, grid=True),
+                    "unit": _unit(tp.get("unit")),
+                },
+                "lat": _table(r.get("latency"), u),
+                "svc": _table(r.get("service_time"), u),
+                "proc": _table(r.get("processing_time"), u),
+                "er": rat(r.get("error_rate")),
+                "dur": rat(r.get("duration"), 1000, grid=True),
+            }
+        )
+    g = {k: rat(getattr(gs, attr), grid=True) for k, attr in GATTR.items()}
+    return {"ops": ops, "g": g}
 
 
 def _crashed_results(sched):
@@ -623,13 +744,13 @@ def _short(item):
 
 def _validate(out, items, name):
     index = {it["id"]: it for it in items}
-    payload = [{k: v for k, v in it.items() if k not in ("u", "crash", "ot", "tele", "ho")} for it in items]
+    payload = [{k: v for k, v in it.items() if k not in ("u", "crash", "ot", "tele", "ho", "uni")} for it in items]
     verdicts = tracecheck.validate("Stats", "TraceStats", "TraceStats.cfg", payload, name=name, chunk=4000, timeout=1500)
     out.traces_validated += verdicts.accepted(len(items))
     for tid, fails in verdicts.l1.items():
         it = index[tid]
         clauses = sorted({c for _, cl in fails for c in cl})
-        case = {k: it[k] for k in ("kind", "sched", "S", "u", "ot", "tele", "ho", "doc") if k in it}
+        case = {k: it[k] for k in ("kind", "sched", "S", "u", "ot", "tele", "ho", "uni", "doc") if k in it}
         out.violations.append(Violation(",".join(clauses), case, signature=_sig(it, clauses), detail=_short(it)))
     out.violations.sort(key=lambda v: (len(v.case.get("S", {}).get("recs", [])) + v.case.get("S", {}).get("ap", NOAP)[2], repr(v.case)))
     for tid in verdicts.l2:
@@ -674,6 +795,12 @@ def run(ctx, out):
         "it: request metrics go into a second (load driver) store and reach the coordinator's store through k >= 2 non-empty "
         "to_externalizable(clear=True) -> bulk_add hand-overs (per task as with TaskFinished / BenchmarkComplete, or cut at arbitrary "
         "points); the model's store is the bag of ALL records, so every L1 clause is judged against all normal samples of the race",
+        "a few races carry non-ASCII task / operation names and user tags and are read back (find_by_race_id, list) by a child "
+        "interpreter started with LC_ALL=C, PYTHONUTF8=0, PYTHONCOERCECLOCALE=0 (preferred encoding ASCII) that imports esrally from "
+        "the tree under test; RoundTrip is judged on what that process read; other non-UTF-8 locales (Latin-1) are not exercised",
+        "every percentile percentiles_for_sample_size (the implementation's own function, asked for the count get_stats reports) "
+        "chooses must be reported under a key of its own (L1 PctKeysFaithful: encode_float_key loses / merges nothing; judged on the "
+        "stored key set, also after the race.json round trip through RoundTrip); which percentiles are chosen for which n stays L2",
         "JSON / the file system are trusted (real json module, real files under a scratch root.dir)",
     ]
     rnd = random.Random(ctx.seed + 8)
@@ -707,6 +834,8 @@ def run(ctx, out):
             if n % 4 == 0:
                 it["tele"] = n % 3
             it["ho"] = (1, 2, 0)[n % 3]
+            if n % 400 == 3:
+                it["uni"] = n
             impl.run_store(it, rnd)
             kinds["ap" if S["ap"][2] > 0 else "store"] += 1
             out.add_case(("store", sched2, sorted(S["recs"], key=repr), S["ap"]), nontrivial=any(_n_normal(S, m, "t1") for m in TASK_METRICS))
@@ -724,7 +853,7 @@ def run(ctx, out):
         out.sample({"sched": it.get("sched"), "store": it.get("S"), "unit_scale": it["u"], "results_task1": it["R"]["ops"][0] if it["R"]["ops"] else None, "reload_diff": it["diff"]})
     # ---- seeded random stores, not derived from the model
     rnd_items = []
-    k = 250 if ctx.quick else 4000
+    k = 250 if ctx.quick else 3000
     for n in range(k):
         it = random_store(random.Random(ctx.seed * 100003 + n), big=(n % 10 == 0))
         it["id"] = "r%d" % n
@@ -733,11 +862,20 @@ def run(ctx, out):
         if n % 3 == 0:
             it["tele"] = n % 5
         it["ho"] = (1, 0, 2, 1)[n % 4]
+        if n % 50 == 7:
+            it["uni"] = 1000000 + n
         impl.run_store(it, rnd)
         rnd_items.append(it)
         out.add_case(("store", it["sched"], sorted(it["S"]["recs"], key=repr), it["S"]["ap"]), nontrivial=any(_n_normal(it["S"], m, t) for m in TASK_METRICS for t, *_ in it["sched"]))
     out.note("random stores executed: %d" % len(rnd_items))
     out.sample({"random": {"sched": rnd_items[1]["sched"], "n_records": len(rnd_items[1]["S"]["recs"]), "ap": rnd_items[1]["S"]["ap"], "results_task1": rnd_items[1]["R"]["ops"][0]}})
+    # ---- races with non-ASCII names / tags are read back by a child interpreter whose preferred encoding is not UTF-8
+    enc = impl.read_back_in_child(items + rnd_items)
+    n_uni = sum(1 for it in items + rnd_items if it.get("uni") is not None)
+    out.extra["non_utf8_reader"] = "%d races with non-ASCII task / operation names and user tags read back (find_by_race_id, list) by a child interpreter with preferred encoding %s" % (n_uni, enc)
+    out.note(out.extra["non_utf8_reader"])
+    if n_uni < 3:
+        raise tlc.MachineryError("too few non-ASCII races (%d)" % n_uni)
     # ---- leg C2S
     _validate(out, items + rnd_items, "c08trace")
 
@@ -750,6 +888,7 @@ def replay(ctx, case):
     it["id"] = "replay"
     if it["kind"] == "store":
         impl.run_store(it, random.Random(0))
+        impl.read_back_in_child([it])
     else:
         impl.run_doc(it)
     o = Outcome("C08")
